@@ -601,6 +601,8 @@ func (z *ZeroOrMoreExpr) InitialNames() map[string]struct{} {
 type OneOrMoreExpr struct {
 	p    Pos
 	Expr Expression
+
+	Nullable bool
 }
 
 var _ Expression = (*OneOrMoreExpr)(nil)
@@ -621,13 +623,15 @@ func (o *OneOrMoreExpr) String() string {
 
 // NullableVisit recursively determines whether an object is nullable.
 func (o *OneOrMoreExpr) NullableVisit(rules map[string]*Rule) bool {
-	o.Expr.NullableVisit(rules) // computes the flags of the sub-expressions
-	return false
+	// e+ can match the empty string exactly when e can (the repetition ends
+	// when e stops matching, e.g. because of a code predicate)
+	o.Nullable = o.Expr.NullableVisit(rules)
+	return o.Nullable
 }
 
 // IsNullable returns the nullable attribute of the node.
 func (o *OneOrMoreExpr) IsNullable() bool {
-	return false
+	return o.Nullable
 }
 
 // InitialNames returns names of nodes with which an expression can begin.
